@@ -285,7 +285,7 @@ def failure_class(d: dict, rig=None) -> str:
     return "other"
 
 
-def classify(cls: str, d: dict, rig) -> str | None:
+def classify(cls: str, d: dict, rig, published_tags=()) -> str | None:
     """C20.base_units_static_list: `Base: u` with u in the analyzer's static list (regex.REGEX_BASE_ARG built from
     units.BASE_VALID_UNITS) but not registered with the UOD's base_unit_provider -> NodeInterpretationError
     "Base instruction has invalid argument 'u'" attached to the Base node."""
@@ -297,6 +297,16 @@ def classify(cls: str, d: dict, rig) -> str | None:
         if m and m.group(1) == node.arguments and m.group(1) in BASE_VALID_UNITS \
                 and m.group(1) not in rig.e.uod.base_unit_provider.get_units():
             return "C20.base_units_static_list"
+    # C20.simulate_off_unknown_tag_accepted: consequence of C19.simulate_off_unknown_dissimilar_tag_not_reported - the
+    # analysis says nothing about `Simulate off: <t>` for an unknown t (longer than two characters, no similar published
+    # tag name); the interpreter then fails in visit_SimulateOffNode with ValueError('Tag name <t> not found')
+    if cls == "undefined_name" and isinstance(node, p.SimulateOffNode):
+        m = re.search(r"Tag name (.*?) not found", d["text"])
+        t = node.arguments
+        if m and m.group(1) == t and len(t) > 2 and t not in published_tags and published_tags:
+            from Levenshtein import ratio
+            if max(ratio(t, n) for n in published_tags) <= 0.7:
+                return "C20.simulate_off_unknown_tag_accepted"
     # C20.percent_tag_vs_molpercent_condition: tag unit '%', condition unit 'mol%': are_comparable('%', 'mol%') is True
     # (analysis and compare_values agree on that) but pint reads 'mol%' as mol * percent, the comparison of the two
     # quantities raises and compare_values turns it into ValueError('Conversion error')
@@ -410,7 +420,7 @@ def check_case(case: dict, res: Result):
                 continue
             where = f" at line {d['node'].position.line} '{d['node'].instruction_name}: {d['node'].arguments}'" \
                 if d["node"] is not None else ""
-            viol.append((classify(cls, d, rig), f"analysis reported no error but the run failed with {cls.replace('_', ' ')}"
+            viol.append((classify(cls, d, rig, [t[0] for t in tagdefs]), f"analysis reported no error but the run failed with {cls.replace('_', ' ')}"
                          f"{where}: {d['text'][:300]}"))
         # commands that failed without reaching set_error_state (internal command .fail()): observed, not judged
         failed_nodes = [nd for nd in prog.get_all_nodes()[1:] if nd.failed]
